@@ -518,6 +518,7 @@ def _dict_method(I, o, name):
     def values(I, a, k): return list(o.values())
     def items(I, a, k): return [(kk, v) for kk, v in o.items()]
     def copy(I, a, k): return dict(o)
+    def clear(I, a, k): o.clear()
 
     def update(I, a, k):
         if a:
@@ -556,6 +557,12 @@ def _set_method(I, o, name):
     def update(I, a, k): o.update(ops.make_set(I, ops.iterate(I, a[0], None), None))
     def union(I, a, k): return set(o).union(*[ops.make_set(I, ops.iterate(I, x, None), None) for x in a])
     def copy(I, a, k): return set(o)
+    def clear(I, a, k): o.clear()
+    def remove(I, a, k):
+        x = ops.dict_key(I, a[0], None)
+        if x not in o:
+            _raise("KeyError", x)
+        o.remove(x)
     def issubset(I, a, k): return o.issubset(ops.make_set(I, ops.iterate(I, a[0], None), None))
     def discard(I, a, k): o.discard(ops.dict_key(I, a[0], None))
     def intersection(I, a, k): return set(o).intersection(*[ops.make_set(I, ops.iterate(I, x, None), None) for x in a])
@@ -838,7 +845,8 @@ def x_deepcopy(I, args, kwargs):
         if isinstance(v, set):
             return set(v)
         if isinstance(v, SObj):
-            r = SObj(v.cls, {}, v.lazy, dict(v.ghost))
+            r = SObj(v.cls, {}, v.lazy, {k2: v2 for k2, v2 in v.ghost.items() if k2 != "shared"})
+            r.born = I.ctx
             memo[id(v)] = r
             for kk, x in v.fields.items():
                 r.fields[kk] = cp(x)
@@ -847,6 +855,22 @@ def x_deepcopy(I, args, kwargs):
             return SOpt(v.is_none, cp(v.val))
         return v
     return cp(args[0])
+
+
+def x_copy(I, args, kwargs):
+    """copy.copy: a new top-level object, the contained objects are shared with the original"""
+    v = I.force(args[0])
+    if isinstance(v, list):
+        return list(v)
+    if isinstance(v, dict):
+        return dict(v)
+    if isinstance(v, set):
+        return set(v)
+    if isinstance(v, SObj):
+        r = SObj(v.cls, dict(v.fields), v.lazy, {k2: v2 for k2, v2 in v.ghost.items() if k2 != "shared"})
+        r.born = I.ctx
+        return r
+    return v
 
 
 def x_replace(I, args, kwargs):
@@ -892,8 +916,15 @@ def x_partial(I, args, kwargs):
     return NativeFn("partial", lambda I2, a, k: I2.call(f, pre + list(a), {**kwargs, **k}))
 
 
+class SDefaultDict(dict):
+    """collections.defaultdict: d[k] on a missing key calls the factory, stores and returns the value; .get does not"""
+    factory = None
+
+
 def x_defaultdict(I, args, kwargs):
-    return {}      # default-value behaviour is not modelled: reads of missing keys are outside the subset (KeyError path)
+    d = SDefaultDict()
+    d.factory = args[0] if args else None
+    return d
 
 
 def x_namedtuple(I, args, kwargs):
@@ -935,6 +966,7 @@ EXTERNALS = {
     "collections.defaultdict": x_defaultdict,
     "typing.cast": x_cast,
     "copy.deepcopy": x_deepcopy,
+    "copy.copy": x_copy,
     "dataclasses.replace": x_replace,
     "functools.reduce": x_reduce,
     "itertools.pairwise": x_pairwise,
